@@ -592,6 +592,11 @@ class RedlineEngine:
 
         start_idx, match_len = self.mapper.find_match_index(edit.target_text)
 
+        # A raw-view match that touches already deleted text is not what the reader sees:
+        # fall through to the Clean View, which only contains visible text.
+        if start_idx != -1 and self._range_touches_deletion(self.mapper, start_idx, start_idx + match_len):
+            start_idx, match_len = -1, 0
+
         # FALLBACK: If Raw View match failed, try matching against Clean View
         use_clean_map = False
         if start_idx == -1:
@@ -672,6 +677,10 @@ class RedlineEngine:
 
         return self._apply_single_edit_indexed(proxy_edit)
 
+    @staticmethod
+    def _range_touches_deletion(mapper: DocumentMapper, start_idx: int, end_idx: int) -> bool:
+        return any(s.run is not None and s.del_id and s.end > start_idx and s.start < end_idx for s in mapper.spans)
+
     def _apply_single_edit_indexed(self, edit: DocumentEdit) -> bool:
         op = edit._internal_op
         active_mapper = edit._active_mapper_ref or self.mapper
@@ -689,6 +698,11 @@ class RedlineEngine:
         length = len(target_text) if target_text else 0
 
         logger.debug(f"Applying Edit at [{start_idx}:{start_idx + length}] Op={op}")
+
+        if length > 0 and active_mapper is self.mapper:
+            if self._range_touches_deletion(self.mapper, start_idx, start_idx + length):
+                logger.warning("Skipping edit: target range lies in text that is already deleted.")
+                return False
 
         if length > 0:
             context_span = self.mapper.get_context_at_range(start_idx, start_idx + length)
